@@ -45,29 +45,30 @@ Update == LET n == NodeOf(Ev.node) IN
   /\ NSEv("ns.update") /\ Idle(n) /\ Adv /\ Keep /\ UNCHANGED <<pend, dev>>
   /\ Chk((Ev.d = 1) = (tbl[n][Ev.c].st = "open"))
   /\ NsUpdate(n, Ev.c, Ev.peer, Ev.nonce)
+\* in table runs (direct calls, labels tb.*) the returned values are the observations: always compared
 Check == LET n == NodeOf(Ev.node) IN
-  /\ IsA("ns.check") /\ Idle(n) /\ Adv /\ UNCHANGED <<vars, pend, dev>>
-  /\ Chk(Ev.reply = CheckSession(Ev.node, tbl[n], Ev.peer, Ev.nonce))
+  /\ (IsA("ns.check") \/ IsA("tb.check")) /\ Idle(n) /\ Adv /\ UNCHANGED <<vars, pend, dev>>
+  /\ (Strict \/ Ev.a = "tb.check") => Ev.reply = CheckSession(Ev.node, tbl[n], Ev.peer, Ev.nonce)
 CheckCand == LET n == NodeOf(Ev.node) IN
   /\ NSEv("tb.cc") /\ Idle(n) /\ Adv /\ UNCHANGED <<vars, pend, dev>>
-  /\ Chk(Ev.reply = CheckCandidate(Ev.node, tbl[n], Ev.c))
+  /\ Ev.reply = CheckCandidate(Ev.node, tbl[n], Ev.c)
 CommitEv == LET n == NodeOf(Ev.node) r == Commit(Ev.node, tbl[n], Ev.c) IN
-  /\ NSEv("ns.commit") /\ Idle(n) /\ Adv /\ Keep /\ UNCHANGED dev
+  /\ (NSEv("ns.commit") \/ NSEv("tb.commit")) /\ Idle(n) /\ Adv /\ Keep /\ UNCHANGED dev
   /\ r.ok
-  /\ Chk((Ev.d = 1) = r.survives /\ Range(Ev.losers) = r.losers)
+  /\ (Strict \/ Ev.a = "tb.commit") => ((Ev.d = 1) = r.survives /\ Range(Ev.losers) = r.losers)
   /\ tbl' = [tbl EXCEPT ![n] = r.t]
   /\ pend' = [pend EXCEPT ![n].auth = IF r.survives THEN Ev.c ELSE ""]
 CommitNone == LET n == NodeOf(Ev.node) IN
   /\ NSEv("tb.commit_none") /\ Idle(n) /\ Adv /\ UNCHANGED <<vars, pend, dev>>
-  /\ Chk(~Commit(Ev.node, tbl[n], Ev.c).ok)
+  /\ ~Commit(Ev.node, tbl[n], Ev.c).ok
 Authenticated == LET n == NodeOf(Ev.node) IN
   /\ NSEv("obs.authenticated") /\ pend[n].auth = Ev.c /\ Adv /\ UNCHANGED <<vars, dev>>
   /\ pend' = [pend EXCEPT ![n].auth = ""]
 \* the two named deviations from "never two ready sessions of one peer" (see ClusterElect)
 Overlap(n, c) == {x \in ReadySet(n) \ {c} : tbl[n][x].peer = tbl[n][c].peer}
 ReadyEv == LET n == NodeOf(Ev.node) el == IsElected(Ev.node, tbl[n], Ev.c) IN
-  /\ NSEv("ns.ready") /\ Idle(n) /\ Adv /\ Keep
-  /\ Chk((Ev.d = 1) = el)
+  /\ (NSEv("ns.ready") \/ NSEv("tb.ready")) /\ Idle(n) /\ Adv /\ Keep
+  /\ (Strict \/ Ev.a = "tb.ready") => ((Ev.d = 1) = el)
   /\ NsReady(n, Ev.c)
   /\ pend' = [pend EXCEPT ![n].rdy = IF el THEN Ev.c ELSE ""]
   /\ dev' = dev \cup (IF el /\ (\E x \in Overlap(n, Ev.c) : LoserStillListed(n, x, Ev.c)) THEN {"ReadyWhileLoserListed"} ELSE {})
